@@ -170,6 +170,16 @@ func knownUnits() []knownUnit {
 			Subject: sub("go", nil,
 				mkFile("a.thrift", "pa", []int{1}, strct("S", fd(1, "x", tRef(1, "_item")))),
 				mkFile("b.thrift", "pb", none, strct("_item")))},
+		{ID: "D18c", Expect: "fail", Note: "enum _item used from another file: cmd/compile says `undefined: pb._Item` (nothing exported reaches the unexported type, so it is absent from the export data) where go/types on source says `not exported` — same root cause and key as D18b",
+			Subject: sub("go", nil,
+				mkFile("a.thrift", "pa", []int{1}, strct("S", fd(1, "x", tRef(1, "_item")))),
+				mkFile("b.thrift", "pb", none, enum("_item", "V1")))},
+		{ID: "D20b", Expect: "fail", Note: "as D20 with an include that is not referred to: no self import, but k-a.go and k-b.go both declare ThriftGoUnusedProtection — same root cause and key as D20",
+			Subject: sub("fastgo", nil,
+				mkFile("a.thrift", "p", []int{1}, strct("S", fd(1, "x", i32))),
+				mkFile("b.thrift", "p", none, strct("T", fd(1, "x", i32))))},
+		{ID: "X12", Expect: "fail", Note: "argument named nil shadows the predeclared nil the generated client body compares with and returns",
+			Subject: sub("go", nil, mkFile("a.thrift", "pa", none, svc("S", nil, fnVoid("f", []*idlgen.Field{fd(1, "nil", i32)}, nil))))},
 		{ID: "D19", Expect: "fail", Note: "functions a_b and aB of one service: duplicate method AB in the interface",
 			Subject: sub("go", nil, mkFile("a.thrift", "pa", none, svc("A", nil, fnVoid("a_b", nil, nil), fnVoid("aB", nil, nil))))},
 		{ID: "D20", Expect: "fail", Note: "fastgo -r: two files of one go namespace both declare ThriftGoUnusedProtection",
